@@ -29,6 +29,7 @@ import (
 	"reflect"
 	"slices"
 	"sort"
+	"strings"
 	"sync/atomic"
 	"time"
 	"unsafe"
@@ -618,6 +619,10 @@ func (x *router) availableRoutees() ([]*PID, bool) {
 		}
 		routees = append(routees, routee)
 	}
+	// Map iteration order changes from one call to the next: give the pool a
+	// stable order so that a round-robin position designates the same routee
+	// for every message.
+	slices.SortFunc(routees, func(a, b *PID) int { return strings.Compare(a.ID(), b.ID()) })
 	return routees, len(routees) > 0
 }
 
